@@ -202,6 +202,8 @@ def run_engine_batch(ctx, args, tag):
     inputs = {}
     for l in open(os.path.join(d, "engine.inputs.jsonl")):
         c = json.loads(l)
+        if c["id"] in inputs:
+            ctx.broken("harness", f"two engine cases share the id {c['id']}: inputs and observations cannot be paired")
         inputs[c["id"]] = c
     impl = open(os.path.join(d, "engine.impl")).read().splitlines()
     model = open(os.path.join(d, "engine.model")).read().splitlines()
